@@ -149,6 +149,7 @@ const (
 	PubOK PubOutcome = iota
 	PubErr
 	PubPanic
+	PubErrAfter // the inner publisher accepted the messages, then an error is reported
 )
 
 // PubCall records one Publish call.
@@ -194,7 +195,12 @@ func (p *ScriptPub) Publish(topic string, msgs ...*message.Message) error {
 		panic("scripted publisher panic")
 	}
 	if p.Inner != nil {
-		return p.Inner.Publish(topic, msgs...)
+		if err := p.Inner.Publish(topic, msgs...); err != nil {
+			return err
+		}
+	}
+	if c.Outcome == PubErrAfter {
+		return ErrScriptPub
 	}
 	return nil
 }
